@@ -14,8 +14,8 @@ theorem insertK_perm {α} (x : PyVal × α) (xs : List (PyVal × α)) : (insertK
   | nil => simp [insertK]
   | cons y r ih =>
     simp only [insertK]; split
-    · exact List.Perm.refl _
     · exact (List.Perm.cons y ih).trans (List.Perm.swap x y r)
+    · exact List.Perm.refl _
 
 theorem sortK_perm {α} (xs : List (PyVal × α)) : (sortK xs).Perm xs := by
   unfold sortK
